@@ -629,6 +629,12 @@ func apply(w *walk.Worker, ctx sdk.Context, e *graph.Edge, path []*graph.Edge, g
 		}
 		if outcome != want {
 			fail(owner("", name), "outcome", "vesting.outcome."+name, "accept/reject differs from the model ("+detail+")", want, outcome)
+			// the model has nothing more to say about this step, but the properties that can be evaluated on the
+			// real state alone still are (solvency, supply, account integrity)
+			for _, f := range s.direct(ctx, name, act, pre, supplyBefore, outcome == "ok") {
+				f.Path = walk.PathActs(path)
+				fs = append(fs, f)
+			}
 			return ctx, fs, true
 		}
 		if outcome == "ok" && (name == "withdraw" || name == "send") {
@@ -661,43 +667,66 @@ func apply(w *walk.Worker, ctx sdk.Context, e *graph.Edge, path []*graph.Edge, g
 		return ctx, fs, true
 	}
 	if isMsg {
-		// C01: custom-module messages never create or destroy coins
-		for _, d := range s.denoms {
-			if after := app.BankKeeper.GetSupply(ctx, d).Amount.String(); after != supplyBefore[d] {
-				fail("C01", "predicate", "vesting.supply."+name, "a vesting message changed the total supply of "+d, supplyBefore[d], after)
-			}
+		for _, f := range s.direct(ctx, name, act, pre, supplyBefore, graph.Bool(act["ok"])) {
+			f.Path = walk.PathActs(path)
+			fs = append(fs, f)
 		}
-		// C05: a rejected message changes nothing
-		if !graph.Bool(act["ok"]) && fmt.Sprintf("%+v", pre) != fmt.Sprintf("%+v", o) {
-			fail("C05", "predicate", "vesting.rejected-changed."+name, "a rejected message changed the state", fmt.Sprintf("%+v", pre), fmt.Sprintf("%+v", o))
-		}
-		// C09: no existing account is replaced or altered (except the signer's own original vesting on split / move)
-		for n, before := range pre.Acct {
-			after, ok := o.Acct[n]
-			allowed := false
-			if (name == "split" || name == "move" || name == "movedenoms") && graph.Bool(act["ok"]) && n == graph.Str(graph.Rec(act["x"])["from"]) {
-				b2 := before
-				b2.OV = after.OV
-				allowed = fmt.Sprintf("%+v", b2) == fmt.Sprintf("%+v", after)
-			}
-			if !ok || (fmt.Sprintf("%+v", before) != fmt.Sprintf("%+v", after) && !allowed) {
-				fail("C09", "predicate", "vesting.account-altered."+name, "an existing account was replaced or altered: "+n, fmt.Sprintf("%+v", before), fmt.Sprintf("%+v", after))
-			}
-		}
-	}
-	// the module's registered invariants as a second opinion (C05)
-	if name != "configure" {
-		for iname, inv := range map[string]sdk.Invariant{"module-account": vkeeper.ModuleAccountInvariant(app.CfevestingKeeper),
-			"nonnegative": vkeeper.NonNegativeVestingPoolAmountsInvariant(app.CfevestingKeeper), "consistent": vkeeper.VestingPoolConsistentDataInvariant(app.CfevestingKeeper)} {
-			if msg, broken := inv(ctx); broken {
-				fail("C05", "predicate", "vesting.invariant."+iname, "registered invariant broken: "+msg, nil, nil)
-			}
-		}
+	} else if name != "configure" {
+		fs = append(fs, s.invariants(ctx)...)
 	}
 	for field, msg := range s.diff(exp, o) {
 		fail(owner(field, name), "mismatch", "vesting."+field+"."+name, field+" differs from the model: "+msg, nil, nil)
 	}
 	return ctx, fs, len(fs) > 0
+}
+
+// invariants: the module's registered invariants as a second opinion on C05
+func (s *state) invariants(ctx sdk.Context) []walk.Finding {
+	app := s.env.App
+	var fs []walk.Finding
+	for iname, inv := range map[string]sdk.Invariant{"module-account": vkeeper.ModuleAccountInvariant(app.CfevestingKeeper),
+		"nonnegative": vkeeper.NonNegativeVestingPoolAmountsInvariant(app.CfevestingKeeper), "consistent": vkeeper.VestingPoolConsistentDataInvariant(app.CfevestingKeeper)} {
+		if msg, broken := inv(ctx); broken {
+			fs = append(fs, walk.Finding{Prop: "C05", Kind: "predicate", Sig: "vesting.invariant." + iname, Msg: "registered invariant broken: " + msg})
+		}
+	}
+	return fs
+}
+
+// direct evaluates, on the real state alone, the properties that need no model: supply neutrality (C01),
+// pool solvency and rejected-message neutrality (C05), integrity of existing accounts (C09).
+func (s *state) direct(ctx sdk.Context, name string, act graph.M, pre obs, supplyBefore map[string]string, accepted bool) []walk.Finding {
+	app := s.env.App
+	var fs []walk.Finding
+	fail := func(prop, kind, sig, msg string, ex, ob any) {
+		fs = append(fs, walk.Finding{Prop: prop, Kind: kind, Sig: sig, Msg: msg, Expected: ex, Observed: ob})
+	}
+	o := s.project(ctx)
+	if o.Err != "" {
+		return fs
+	}
+	for _, d := range s.denoms {
+		if after := app.BankKeeper.GetSupply(ctx, d).Amount.String(); after != supplyBefore[d] {
+			fail("C01", "predicate", "vesting.supply."+name, "a vesting message changed the total supply of "+d, supplyBefore[d], after)
+		}
+	}
+	if !accepted && fmt.Sprintf("%+v", pre) != fmt.Sprintf("%+v", o) {
+		fail("C05", "predicate", "vesting.rejected-changed."+name, "a rejected message changed the state", fmt.Sprintf("%+v", pre), fmt.Sprintf("%+v", o))
+	}
+	for n, before := range pre.Acct {
+		after, ok := o.Acct[n]
+		allowed := false
+		if (name == "split" || name == "move" || name == "movedenoms") && accepted && n == graph.Str(graph.Rec(act["x"])["from"]) {
+			b2 := before
+			b2.OV = after.OV
+			allowed = fmt.Sprintf("%+v", b2) == fmt.Sprintf("%+v", after)
+		}
+		if !ok || (fmt.Sprintf("%+v", before) != fmt.Sprintf("%+v", after) && !allowed) {
+			fail("C09", "predicate", "vesting.account-altered."+name, "an existing account was replaced or altered: "+n, fmt.Sprintf("%+v", before), fmt.Sprintf("%+v", after))
+		}
+	}
+	fs = append(fs, s.invariants(ctx)...)
+	return fs
 }
 
 func panicClass(act graph.M) string {
